@@ -377,6 +377,9 @@ func c16(p *core.Prog, r *core.Report) {
 	// the counters canRemove() reads (connection lists, sub-channel reference
 	// count) are shared by sibling peer lists with separate locks: they are
 	// only touched under the peer's own lock (shared with C04-R1)
+	r.Alias("C11-R3", "C16-R2")
+	c11Dropped(p, r)
+	r.Alias("C11-R3", "")
 	r.Rule("C16-R5", "E4 locksets", 6, "the peer's connection lists and reference count are accessed under the peer's lock")
 	guardedAccesses(p, r, locks, "C16-R5", func(typ, field string, fld *types.Var) bool {
 		return typ == "Peer"
@@ -819,6 +822,27 @@ func c15Order(p *core.Prog, r *core.Report) {
 			}
 		}
 		r.Check(ok, "C15-R5", fname(f), "new score = calculator.GetScore(peer), applied under the write lock", p.Pos(f.Pos()), "updatePeer(ps, GetScore(ps.Peer)) with the lock held", how)
+	}
+	// wherever a score is changed the heap is repaired: every store into
+	// peerScore.score outside construction is followed on every path by
+	// peerHeap.updatePeer (heap.Fix) in the same function
+	if sf := mustField(p, r, "", "peerScore", "score"); sf != nil {
+		ns := 0
+		for _, st := range p.StoresTo(sf) {
+			if st.Kind == "init" {
+				continue
+			}
+			ns++
+			res := core.ReachAvoiding(st.Fn, st.Instr, core.IsReturn, func(i ssa.Instruction) bool {
+				_, is := core.IsCall(i, "peerHeap.updatePeer")
+				return is
+			}, nil)
+			r.Check(!res.Found, "C15-R5", fname(st.Fn), fmt.Sprintf("score store #%d is followed by heap.Fix", ns), p.Pos(st.Instr.Pos()),
+				"peerHeap.updatePeer follows on every path", "a peer's score is changed without repairing the heap: selection keeps the old ranking and returns non-minimum peers: "+p.TrailString(res))
+		}
+		if ns == 0 {
+			r.Errorf("no store into peerScore.score found outside construction")
+		}
 	}
 	if f := mustFunc(p, r, "", "Channel", "updatePeer"); f != nil {
 		ok := onEveryPath(f, "PeerList.onPeerChange") && onEveryPath(f, "subChannelMap.updatePeer")
